@@ -233,3 +233,40 @@ MUTANTS += [
         (TE, "        old = self.vertices[idx]\n        _ = self.vertices[1]\n\n        self._vertices[idx] = new\n",
              "        old = self.vertices[idx]\n        self._vertices[idx] = new\n        _ = self.vertices[1]\n")]),
 ]
+
+UV = "edgegraph/structure/universe.py"
+BS = "edgegraph/structure/base.py"
+MUTANTS += [
+    # ---------------- C02 -------------------------------------------------
+    dict(id="c02_add_vertex_no_dup_guard", props=["C02"], edits=[
+        (UV, "        if vert in self._vertices:\n            return\n\n        self._vertices.append(vert)", "        self._vertices.append(vert)")]),
+    dict(id="c02_add_vertex_prepends", props=["C02"], edits=[
+        (UV, "        self._vertices.append(vert)\n        if self not in vert.universes:", "        self._vertices.insert(0, vert)\n        if self not in vert.universes:")]),
+    dict(id="c02_remove_vertex_silent", props=["C02"], edits=[
+        (UV, "        self._vertices.remove(vert)\n        if self in vert.universes:", "        if vert not in self._vertices:\n            return\n        self._vertices.remove(vert)\n        if self in vert.universes:")]),
+    dict(id="c02_remove_from_universe_no_callback_when_nested", props=["C02"], edits=[
+        (VX, "        super().remove_from_universe(universe)\n        if self in universe.vertices:\n", "        super().remove_from_universe(universe)\n        if self in universe.vertices and not hasattr(self, \"_vertices\"):\n")]),
+    dict(id="c02_vertex_init_skips_later_universes", props=["C02"], edits=[
+        (VX, "        for uni in self.universes:\n            uni.add_vertex(self)\n", "        for uni in self.universes[:2]:\n            uni.add_vertex(self)\n")]),
+    dict(id="c02_base_no_dedup", props=["C02"], edits=[
+        (BS, "        self._universes = [*dict.fromkeys(self._universes)]\n", "")]),
+]
+
+MUTANTS += [
+    # ---------------- C19 -------------------------------------------------
+    dict(id="c19_revert_whitelist_copy", props=["C19"], edits=[
+        (UV, "                    t: dict(linkset.items())\n                    for t, linkset in edge_whitelist.items()\n                }\n            self.edge_whitelist",
+             "                    t: linkset\n                    for t, linkset in edge_whitelist.items()\n                }\n            self.edge_whitelist")]),
+    dict(id="c19_applies_to_no_release_of_old", props=["C19"], edits=[
+        (UV, "        if (old is not None) and (old.laws is self):\n            old.laws = None\n", "")]),
+    dict(id="c19_laws_setter_no_detach_old", props=["C19"], edits=[
+        (UV, "        if (old is not None) and (old.applies_to is self):\n            old.applies_to = None\n", "")]),
+    dict(id="c19_laws_none_is_noop_when_already_moved", props=["C19"], edits=[
+        (UV, "        if new is self._laws:\n            return\n", "        if new is self._laws or (new is not None and new.applies_to is not None and self._laws is None):\n            return\n")]),
+    dict(id="c19_getter_multipath_returns_cycles", props=["C19"], edits=[
+        (UV, "        return self._multipath\n", "        return self._cycles\n")]),
+    dict(id="c19_init_forgets_given_laws_binding", props=["C19"], edits=[
+        (UV, "        self._laws.applies_to = self\n", "        if laws is None:\n            self._laws.applies_to = self\n        else:\n            self._laws._applies_to = self\n")]),
+    dict(id="c19_whitelist_getter_returns_inner_dicts", props=["C19"], edits=[
+        (UV, "                t: types.MappingProxyType(dict(linkset.items()))\n", "                t: linkset\n")]),
+]
